@@ -870,7 +870,7 @@ class Manager:
                 self.registerTask(task.task)
             elif event.waitingHandlers == 0:
                 event.value.inform(True)
-                self._eventDone(event)
+                self._eventDone(event, True if event.value.errors else None)
         except KeyboardInterrupt:
             self.stop()
         except SystemExit as e:
